@@ -1,10 +1,11 @@
 #!/usr/bin/env bash
-# sequential queue for tools/seeded.sh: append lines "<ID> [checks...]" to /var/tmp/seeded.queue; logs in /var/tmp/seeded-<ID>.log
-Q=/var/tmp/seeded.queue; touch $Q; n=0
+# sequential queue for tools/seeded.sh: append lines "[nosuite ]<ID> [checks...]" to /var/tmp/seeded.queue; logs in /var/tmp/seeded-<ID>.log
+# the number of lines already taken is kept in /var/tmp/seeded.ptr, so the runner can be restarted
+Q=/var/tmp/seeded.queue; P=/var/tmp/seeded.ptr; touch $Q; [ -f $P ] || echo 0 > $P
 while true; do
-  total=$(wc -l < $Q)
+  total=$(wc -l < $Q); n=$(cat $P)
   if [ "$n" -lt "$total" ]; then
-    n=$((n+1)); line=$(sed -n "${n}p" $Q); [ -z "$line" ] && continue
+    n=$((n+1)); echo $n > $P; line=$(sed -n "${n}p" $Q); [ -z "$line" ] && continue
     suite=1; if [ "${line%% *}" = nosuite ]; then suite=0; line=${line#nosuite }; fi
     id=${line%% *}
     SEEDED_SUITE=$suite /verif/tools/seeded.sh $line > /var/tmp/seeded-$id.log 2>&1
